@@ -17,7 +17,7 @@
    locked deposits and pool creations (monitors mon_C04 / mon_C01x on the implementation).
    Statements only. *)
 From MD.Model Require Import Base Ownable Epoch PoolMath Types PoolManager FarmManager Chain.
-From MD.Proofs Require Import PoolMathProofs BankProofs SwapProofs ChainProofs PmProofs LiquidityProofs PoolCustody PoolCustodyChain NonVacuity SingleSided TxBalances TxExcess PmChainProofs LockedExcess SingleLockedExcess CreateExcess FarmSideExcess ExcessLedger.
+From MD.Proofs Require Import PoolMathProofs BankProofs SwapProofs ChainProofs PmProofs LiquidityProofs PoolCustody PoolCustodyChain NonVacuity SingleSided TxBalances TxExcess PmChainProofs LockedExcess SingleLockedExcess CreateExcess FarmSideExcess FarmRefundExcess ExcessLedger.
 
 Theorem C01_backed_in_every_reachable_world : forall g w0 ops,
   genesis_world g = Ok w0 -> 0 <= amount_of (fm_create_fee (g_fm g)) ->
@@ -223,18 +223,28 @@ Theorem C01_excess_through_farm_manager_transactions : forall w sender fm funds 
   forall d, slackP w' d = slackP w d.
 Proof. exact fm_tx_excess. Qed.
 
-(* THE EXCESS CLAUSE OVER HISTORIES: for any history made of EVERY KIND OF POOL-MANAGER MESSAGE (pool creations, deposits of one
-   or several assets - unlocked or locked in the farm manager -, swaps, routes, withdrawals, ownership and configuration
-   messages with the feature switches), of transactions to the epoch manager and the fee collector, of transactions to the farm manager (claims, position operations
-   except emergency withdrawals, farm expansions, configuration), plain bank sends, block
-   changes, injected faults, rejected operations, in any order, by any users: for every denom that is not an LP denom, the excess
-   after the history is EXACTLY the initial excess plus the ledger - and every ledger entry (ExcessLedger.gift) is either the
-   amount of a plain bank send to the contract or the one indivisible unit of an accepted odd single-asset deposit, zero for
-   every other operation. (good_run: no operation is signed by the pool manager or names it as receiver of a swap or an
-   unlocked deposit; at every step the fee collector is not the pool manager itself, the farm manager address is the farm
-   manager, LP denoms are canonical and the fees are small - the last two hold in every reachable world. Only farm creations, farm closings and
-   emergency withdrawals are outside this theorem; for them the lower bound C01_backed_in_every_reachable_world and
-   the monitors apply.) *)
+(* EVERY transaction sent to the farm manager - farm creations (fee to the collector, overpayment back, refunds of the swept
+   expired farms), farm closings (refund through a reply-on-error sub-message whose failure is tolerated), emergency
+   withdrawals (penalty shared between farm owners and the fee collector) included - leaves the pool manager's surplus unchanged,
+   as long as none of the payees (the farm manager's fee collector, the farm owners) is the pool manager itself *)
+Theorem C01_excess_through_any_farm_manager_transaction : forall w sender fm funds w',
+  sender <> PM -> fm_payees_ok (w_fm w) ->
+  run_tx w sender FM (WFm fm) funds = Ok w' ->
+  forall d, slackP w' d = slackP w d.
+Proof. exact any_fm_tx_excess. Qed.
+
+(* THE EXCESS CLAUSE OVER HISTORIES OF ALL OPERATIONS: for any history made of every kind of pool-manager message (pool creations,
+   deposits of one or several assets - unlocked or locked in the farm manager -, swaps, routes, withdrawals, ownership and
+   configuration messages with the feature switches), every kind of farm-manager message (farm creations / expansions /
+   closings, claims, position creations / expansions / closings / withdrawals / emergency withdrawals, configuration),
+   transactions to the epoch manager and the fee collector, plain bank sends, block changes, injected faults, rejected
+   operations, in any order, by any users: for every denom that is not an LP denom, the excess after the history is EXACTLY
+   the initial excess plus the ledger - and every ledger entry (ExcessLedger.gift) is either the amount of a plain bank send
+   to the contract or the one indivisible unit of an accepted odd single-asset deposit, zero for every other operation.
+   (good_run: no operation is signed by the pool manager or names it as receiver of a swap or an unlocked deposit; at every
+   step neither fee collector is the pool manager itself, no farm is owned by it, the farm manager address is the farm manager
+   - all checked along the run by ExcessLedger.fc_ok_run -, LP denoms are canonical and the fees are small - which hold in
+   every reachable world.) *)
 Theorem C01_excess_is_exactly_donations_plus_odd_units : forall ops w d,
   good_run w ops -> asset_denom d -> slackP (run w ops) d = slackP w d + ledger w ops d.
 Proof. exact excess_ledger. Qed.
@@ -272,3 +282,4 @@ Print Assumptions C01_excess_through_ownership_and_configuration.
 Print Assumptions C01_excess_through_a_locked_single_asset_deposit.
 Print Assumptions C01_excess_through_epoch_manager_and_fee_collector_transactions.
 Print Assumptions C01_excess_through_farm_manager_transactions.
+Print Assumptions C01_excess_through_any_farm_manager_transaction.
